@@ -4,6 +4,7 @@ from __future__ import annotations
 import json
 import keyword
 import re
+import unicodedata
 
 from harness import lib, e2e
 
@@ -163,17 +164,28 @@ def correspond(ctx):
     ctx.count("disagreements", bad)
     for m, r in list(zip(metas, reals))[:: max(1, len(metas) // 6)][:6]:
         ctx.sample({"kind": m[0], "name": m[2], "opts": {k: v for k, v in m[1].items() if v}, "excludes": m[3], "code": r})
-    # field name + alias
+    # field name + alias; resolver objects are shared along the whole history (the model is a
+    # function of its arguments only, so any dependence on earlier calls shows up as a disagreement)
     rng = ctx.rng("fna")
     reqs, reals, metas = [], [], []
-    for _ in range(ctx.n(1500, 10000)):
+    shared = {}
+    pool = ["".join(rng.choice(ALPHABET + ["ab", "fooBar", "trace-id", "trace_id"]) for _ in range(rng.choice([0, 1, 2, 3]))) for _ in range(60)]
+    for _ in range(ctx.n(2500, 15000)):
         kind = rng.choice(["plain", "pyd"])
-        o = mk_opts(rng)
-        name = "".join(rng.choice(ALPHABET + ["ab", "fooBar"]) for _ in range(rng.choice([0, 1, 2, 3])))
-        aliases = rng.choice([None, None, {name: "renamed"}, {"other": "x"}])
+        o = mk_opts(rng) if rng.random() < 0.5 else dict(default_opts(), snake=rng.random() < 0.5)
+        name = rng.choice(pool)
+        aliases = rng.choice([None, None, None, {name: "renamed"}, {"other": "x"}])
         o2 = dict(o, aliases=aliases)
-        res = resolver(kind, o2)
-        excl = rng.choice([None, [name], []])
+        key = (kind, json.dumps(o2, sort_keys=True))
+        res = shared.get(key)
+        if res is None:
+            res = shared[key] = resolver(kind, o2)
+        excl = rng.choice([None, [name], [], "prev"])
+        if excl == "prev":  # what an earlier member of the same class may have been given
+            try:
+                excl = [lib.call_with_timeout(res.get_valid_name, 0.25, name)]
+            except Exception:  # noqa: BLE001
+                excl = []
         try:
             v, a = lib.call_with_timeout(res.get_valid_field_name_and_alias, 0.25, name, excludes=set(excl) if excl is not None else None)
             real = "OK\t" + lib.enc_str(v) + "\t" + ("NONE" if a is None else "SOME " + lib.enc_str(a))
@@ -233,9 +245,14 @@ def check_name(kind, o, name, excl, ignore=False):
     return None
 
 
-def e2e_roundtrip(ctx, names, kind_out, opts):
-    """Schema with the given property names -> generate -> exec -> validate -> dump by alias."""
+def e2e_roundtrip(ctx, names, kind_out, opts, second=None):
+    """Schema with the given property names -> generate -> exec -> validate -> dump by alias.
+    `second`: property names of a nested object (a second class in the same run)."""
     schema = {"type": "object", "title": "M", "properties": {n: {"type": "integer"} for n in names}}
+    data = {n: i for i, n in enumerate(names)}
+    if second:
+        schema["properties"]["zz_inner"] = {"type": "object", "title": "Inner", "properties": {n: {"type": "integer"} for n in second}}
+        data["zz_inner"] = {n: 10 + i for i, n in enumerate(second)}
     g = e2e.generate(json.dumps(schema), kind=kind_out, **opts)
     if g.timeout:
         return "generate() does not terminate"
@@ -244,6 +261,10 @@ def e2e_roundtrip(ctx, names, kind_out, opts):
     err = e2e.parses(g.text)
     if err:
         return f"output does not parse: {err}"
+    for cname, cls in e2e.classes_of(g.text).items():
+        fields = [f[0] for f in e2e.class_fields(cls)]
+        if len(set(fields)) != len(fields):
+            return f"class {cname} has duplicate member names {fields}"
     if kind_out not in ("pydantic_v2.BaseModel", "pydantic.BaseModel"):
         return None
     m, err = e2e.load_module(g.text, kind_out)
@@ -253,7 +274,6 @@ def e2e_roundtrip(ctx, names, kind_out, opts):
         M = getattr(m, "M", None)
         if M is None:
             return None
-        data = {n: i for i, n in enumerate(names)}
         try:
             obj = M.model_validate(data) if kind_out.startswith("pydantic_v2") else M.parse_obj(data)
             back = obj.model_dump(by_alias=True) if kind_out.startswith("pydantic_v2") else obj.dict(by_alias=True)
@@ -298,30 +318,39 @@ def falsify(ctx):
         names = list(dict.fromkeys("".join(rng.choice(ALPHABET[:15]) for _ in range(rng.choice([1, 2, 3]))) for _ in range(rng.choice([2, 4, 7]))))
         if any("\0" in n for n in names):
             continue
+        # guard (known finding C07-nfkc): Python NFKC-normalises identifiers, the generator does not
+        names = [n for n in names if unicodedata.normalize("NFKC", n) == n]
+        if not names:
+            continue
         kind_out = rng.choice(["pydantic_v2.BaseModel", "pydantic_v2.BaseModel", "pydantic.BaseModel", "dataclasses.dataclass", "typing.TypedDict"])
         opts = {}
         if rng.random() < 0.3:
             opts["snake_case_field"] = True
         if rng.random() < 0.2:
             opts["remove_special_field_name_prefix"] = True
+        second = None
+        if rng.random() < 0.6:  # a second class that meets the same names in another order / sanitised form
+            second = list(reversed(names)) + [n.replace("-", "_").replace(" ", "_") for n in names if n.replace("-", "_").replace(" ", "_") not in names]
+            second = list(dict.fromkeys(x for x in second if x and x != "zz_inner"))
+            rng.shuffle(second)
         ctx.count("eval_e2e")
-        why = e2e_roundtrip(ctx, names, kind_out, opts)
+        why = e2e_roundtrip(ctx, names, kind_out, opts, second)
         if why:
-            ctx.violation(f"e2e:{kind_out}:{names!r}:{opts}", f"property names {names!r} ({kind_out}, {opts}): {why}",
-                          {"names": names, "kind": kind_out, "opts": opts, "why": why})
+            ctx.violation(f"e2e:{kind_out}:{names!r}:{second!r}:{opts}", f"property names {names!r} / inner {second!r} ({kind_out}, {opts}): {why}",
+                          {"names": names, "second": second, "kind": kind_out, "opts": opts, "why": why})
 
 
 def replay_finding(ctx, f):
     r = f["replay"]
     if "names" in r:
-        return e2e_roundtrip(ctx, r["names"], r["kind"], r["opts"]) is not None
+        return e2e_roundtrip(ctx, r["names"], r["kind"], r["opts"], r.get("second")) is not None
     return check_name(r["kind"], r["opts"], r["name"], r.get("excludes")) is not None
 
 
 def replay(ctx, payload):
     r = payload.get("replay", payload)
     if "names" in r:
-        why = e2e_roundtrip(ctx, r["names"], r["kind"], r["opts"])
+        why = e2e_roundtrip(ctx, r["names"], r["kind"], r["opts"], r.get("second"))
     elif "name" in r:
         why = check_name(r["kind"], r["opts"], r["name"], r.get("excludes"))
     else:
